@@ -128,6 +128,13 @@ def store_through(r, v):
         raise Unsupported("store through a non-reference")
 
 
+class EnumDisc(V):
+    """A C-like enum value known only by its discriminant (e.g. core::cmp::Ordering)."""
+
+    def __init__(self, t):
+        self.t = str(t)
+
+
 class Opaque(V):
     def __init__(self, tag=""):
         self.tag = tag
@@ -531,6 +538,8 @@ class Exec:
         m = re.fullmatch(r"discriminant\((.+)\)", rv)
         if m:
             a = self.read_place(st, m.group(1))
+            if isinstance(a, EnumDisc):
+                return Int(a.t)
             if isinstance(a, Opt):
                 if getattr(a, "cf", False):  # ControlFlow: Continue = 0, Break = 1
                     return Int(f"(ite {a.some} 0 1)")
@@ -911,6 +920,11 @@ def model_unwrap(ex, st, callee, args, ty):
     o = args[0]
     if not isinstance(o, Opt):
         raise Unsupported(f"unwrap of {o}")
+    if o.some == "true":
+        return [(st, o.payload, "return", "")]
+    if o.some == "false":
+        st.events.append(("panic", "unwrap on None"))
+        return [(st, None, "panic", "called `Option::unwrap()` on a `None` value")]
     s1 = st.fork()
     s1.pc.append(o.some)
     s2 = st.fork()
@@ -1061,12 +1075,57 @@ def model_mem_swap(ex, st, callee, args, ty):
     return m_ret(st, Tup([]))
 
 
+def model_ord_cmp(ex, st, callee, args, ty):
+    a, b = val_of(args[0]), val_of(args[1])
+    # Ordering::Less = -1 (255 as u8 in the switch), Equal = 0, Greater = 1
+    return m_ret(st, EnumDisc(f"(ite (< {a.t} {b.t}) 255 (ite (= {a.t} {b.t}) 0 1))"))
+
+
+def model_range_iter(kind):
+    def h(ex, st, callee, args, ty):
+        r = args[0]
+        if kind == "into_iter":
+            return m_ret(st, r)
+        if kind == "rev":
+            t = Tup([r.fs[0], r.fs[1]])
+            t.sname = "RevRange"
+            return m_ret(st, t)
+        rng = val_of(r)
+        lo, hi = rng.fs[0].t, rng.fs[1].t
+        some = f"(< {lo} {hi})"
+        if kind == "next":
+            rng.fs[0] = Int(f"(ite {some} (+ {lo} 1) {lo})")
+            return m_ret(st, Opt(some, Int(lo)))
+        rng.fs[1] = Int(f"(ite {some} (- {hi} 1) {hi})")
+        return m_ret(st, Opt(some, Int(f"(- {hi} 1)")))
+    return h
+
+
+def model_slice_copy_within(ex, st, callee, args, ty):
+    sl, rng, dest = val_of(args[0]), args[1], args[2]
+    a, b = rng.fs[0].t, rng.fs[1].t
+    ok = f"(and (<= {a} {b}) (<= {b} {sl.len}) (<= {dest.t} (- {sl.len} (- {b} {a}))))"
+    s1 = st.fork()
+    s1.pc.append(ok)
+    s2 = st.fork()
+    s2.pc.append(f"(not {ok})")
+    s2.events.append(("panic", "slice::copy_within out of bounds"))
+    return [(s1, Tup([]), "return", ""), (s2, None, "panic", "slice::copy_within out of bounds")]
+
+
 def model_pure(ex, st, callee, args, ty):
     return m_ret(st, fresh_of_type(ty, st.sym, "p"))
 
 
 STD_MODELS = [
     (r"^Arguments::<'_>::(from_str|new_const|new_v1|new)", model_pure),
+    (r"^<usize as Ord>::cmp$", model_ord_cmp),
+    (r"^<core::ops::Range<usize> as IntoIterator>::into_iter$|^<Rev<core::ops::Range<usize>> as IntoIterator>::into_iter$", model_range_iter("into_iter")),
+    (r"^<core::ops::Range<usize> as Iterator>::rev$", model_range_iter("rev")),
+    (r"^<core::ops::Range<usize> as Iterator>::next$", model_range_iter("next")),
+    (r"^<Rev<core::ops::Range<usize>> as Iterator>::next$", model_range_iter("next_back")),
+    (r"slice::<impl \[.*\]>::copy_within::<", model_slice_copy_within),
+    (r"slice::<impl \[.*\]>::(copy_from_slice|clone_from_slice|swap_with_slice)$", model_pure),
     (r"^core::mem::take::<", model_mem_take),
     (r"^core::mem::swap::<", model_mem_swap),
     (r"slice::<impl \[.*\]>::as_(mut_)?ptr$", model_as_ptr),
